@@ -57,6 +57,7 @@ type pathState struct {
 	thread      int
 	readRunes   int
 	lastPanic   string
+	cli         *cliState
 	vals        map[*Term]*Term
 	simpMemo    map[*Term]*Term
 	model       map[*Term]*Term
